@@ -137,6 +137,24 @@ func icptOption(rule string, id int) mux.Option {
 	return mux.WithInterceptor(icptFunc(id), rule)
 }
 
+func icptRules(tok string) map[string]mux.InterceptorFunc {
+	m := map[string]mux.InterceptorFunc{}
+	for _, e := range decM(tok) {
+		id, _ := strconv.Atoi(e.v)
+		switch id {
+		case 0:
+			m[e.k] = icptAny
+		case 1:
+			m[e.k] = icptDigit
+		case 2:
+			m[e.k] = icptWord
+		default:
+			m[e.k] = icptFunc(id)
+		}
+	}
+	return m
+}
+
 func mwOf(id int) types.Middleware[*H] {
 	return types.MiddlewareFunc[*H](func(next *H, method, pattern, router string) *H {
 		if next == nil {
@@ -767,6 +785,36 @@ func (x *executor) step(line string) string {
 			mux.Trace(r, req, t[1] == "1")
 			return "trace " + fmtRec(r) + " text=" + encB(string(r.text))
 		})
+	case t[0] == "u-split" && len(t) == 2:
+		return protect(func() string { return "split " + encL(mux.VerifSplitString(decB(t[1]))) })
+	case t[0] == "u-lp" && len(t) == 3:
+		return protect(func() string { return fmt.Sprintf("lp %d", mux.VerifLongestPrefix(decB(t[1]), decB(t[2]))) })
+	case t[0] == "u-seg" && len(t) == 3:
+		return protect(func() string {
+			seg, err := mux.VerifNewSegment(icptRules(t[1]), decB(t[2]))
+			if err != nil {
+				return classify(err)
+			}
+			return fmt.Sprintf("seg kind=%d name=%s ign=%s rule=%s suffix=%s endpoint=%s amb=%d", seg.Type, encB(seg.Name), b2s(seg.IgnoreName),
+				encB(seg.Rule), encB(seg.Suffix), b2s(seg.Endpoint), seg.AmbiguousLength)
+		})
+	case t[0] == "u-match" && len(t) == 4:
+		return protect(func() string {
+			ok, ps, rest, err := mux.VerifMatch(icptRules(t[1]), decB(t[2]), decB(t[3]))
+			if err != nil {
+				return classify(err)
+			}
+			if !ok {
+				return "m 0"
+			}
+			return fmt.Sprintf("m 1 params=%s rest=%s", encMap(ps), encB(rest))
+		})
+	case t[0] == "dump" && len(t) == 2:
+		r := x.routers[atoi(t[1])]
+		if r == nil {
+			return "bad-op no-router"
+		}
+		return protect(func() string { return "dump " + r.VerifDump() })
 	case t[0] == "pf" && len(t) == 3:
 		return "ok"
 	case t[0] == "ctx-new" && len(t) == 2:
